@@ -80,8 +80,77 @@ class GenV(cc.Gen1):
         self.use = NatUse(self.I)
         self.budget = budget
         self.spent = 0
+        # sparse values (TL2: a body ends right after its last non-empty field, whole presence-mask blocks are dropped):
+        # mode 'late' = in every constructor with ≥ 8 fields everything from a random cut (1..7) on is empty / absent
+        self.mode = "dense"
+        self.force_zero = 0
+        self.cuts = [None]
+
+    def set_mode(self, mode):
+        self.mode = mode
+        self.zero_bias = {"dense": 0, "sparse": 60, "sparser": 92, "late": 30}[mode]
+
+    def prim(self, i):
+        if self.force_zero:
+            p = i["prim"]
+            if p == "bool":
+                return self.u32(i.get("falseTag", 0))
+            return {"uint32": 4, "int32": 4, "float32": 4, "uint64": 8, "int64": 8, "float64": 8, "string": 4, "byte": 1}.get(p, 0) * b"\x00"
+        return super().prim(i)
+
+    def struct_body(self, s, params, depth):
+        fields = s.get("fields") or []
+        cut = None
+        if self.mode == "late" and len(fields) >= 8 and not self.force_zero:
+            cut = self.rng.range(1, 7)
+        self.cuts.append(cut)
+        try:
+            out = b""
+            vals = []
+            for idx, f in enumerate(fields):
+                present = True
+                if f.get("mask"):
+                    present = (self.natarg(f["mask"], vals, params) >> f["bit"]) & 1 == 1
+                if not present:
+                    vals.append(None)
+                    continue
+                late = cut is not None and idx >= cut
+                self.force_zero += late
+                try:
+                    t = self.I[f["ty"]]
+                    na = [self.natarg(a, vals, params) for a in f["natArgs"]]
+                    if t["kind"] == "prim" and t["prim"] == "uint32":
+                        v = self.nat_field_value(s, idx, depth)
+                        vals.append(v)
+                        out += self.u32(v)
+                    else:
+                        vals.append(None)
+                        out += self.value(f["ty"], f["bare"], na, depth + 1)
+                finally:
+                    self.force_zero -= late
+            return out
+        finally:
+            self.cuts.pop()
 
     def nat_field_value(self, s, idx, depth):
+        r = self.rng
+        if self.force_zero:
+            return 0
+        v = self.nat_field_value0(s, idx, depth)
+        cut = self.cuts[-1]
+        if cut is not None:
+            # fields behind the cut are absent: clear the bits of the local masks they test
+            for j, f in enumerate(s.get("fields") or []):
+                m = f.get("mask")
+                if j >= cut and m and m["k"] == "field" and m["v"] == idx:
+                    v &= ~(1 << f["bit"])
+        elif self.zero_bias and r.below(100) < self.zero_bias:
+            bits, size = self.use.field(s, idx)
+            if bits or size:
+                v = 0 if r.chance(1, 2) else v & (1 << r.below(32))
+        return v & 0xFFFFFFFF
+
+    def nat_field_value0(self, s, idx, depth):
         r = self.rng
         bits, size = self.use.field(s, idx)
         tight = depth >= self.maxdepth or self.spent > self.budget
@@ -110,6 +179,14 @@ class GenV(cc.Gen1):
         if depth > 60:
             raise TooDeep()
         i = self.I[ty]
+        if self.force_zero:
+            # the empty value of the type: first constructor, no elements
+            if i["kind"] == "union":
+                v = self.I[i["variants"][0]]
+                na = [self.natarg(a, [], params) for a in (i.get("elementNatArgs") or [])]
+                return self.u32(v["tag"]) + self.struct_body(v, na, depth)
+            if i["kind"] in ("array", "dict") and not (i["kind"] == "array" and i.get("isTuple")):
+                return self.u32(0)
         if i["kind"] in ("array", "dict") and not (i["kind"] == "array" and i.get("isTuple")) and self.spent > self.budget:
             self.spent += 4
             return self.u32(0)
@@ -123,16 +200,17 @@ class GenV(cc.Gen1):
         return self.value(ty, bare, [], 0)
 
 
-def make_schema(c, sid, seed, size, sanity=True, features=None):
+def make_schema(c, sid, seed, size, sanity=True, features=None, tl2=False):
     """Generate schema number `sid` from its own seed; returns (cc.Schema, desc_mine, generator) — nothing of this
-    comes from the kernel. The .tl text is written under the check's work directory."""
-    text, desc, g = sg.gen_schema_ex(SplitMix64(seed), size, features)
+    comes from the kernel. The .tl text is written under the check's work directory. `tl2`: generate Go with
+    --tl2WhiteList=* and mark every instance of the descriptor as TL2-enabled."""
+    text, desc, g = sg.gen_schema_ex(SplitMix64(seed), size, features, has_tl2=tl2)
     d = os.path.join(c.workdir, "schemas")
     os.makedirs(d, exist_ok=True)
     path = os.path.join(d, sid + ".tl")
     with open(path, "w") as f:
         f.write(text)
-    sc = cc.Schema(sid, [path], tl2="", sanity=sanity)
+    sc = cc.Schema(sid, [path], tl2="*" if tl2 else "", sanity=sanity)
     sc.text, sc.seed, sc.size = text, seed, size
     return sc, desc, g
 
@@ -158,6 +236,98 @@ def x1_lines(sc, rng, per, mutants=2, big=False, valid_idx=None):
                 for _ in range(mutants):
                     m = cc.mutate(rng, b) if sc.sanity else mutate_small(rng, b)
                     lines.append("codec.x1 %s %d %s %d %s" % (sc.sid, inst["idx"], inst["tlname"], boxed, hx(m)))
+    return lines
+
+
+MODES = ["dense", "late", "sparse", "late", "sparser", "late"]
+
+
+def x2_lines(sc, rng, per, big=False):
+    """`codec.x2` (read TL1, write TL2) on valid TL1 encodings of every TL2-enabled factory item, bare and boxed; dense values and
+    sparse ones (most fields empty / absent, in particular everything late in a wide constructor)"""
+    from checks import codec_tl2 as t2
+    g = GenV(sc, rng.fork(), big=big)
+    lines = []
+    for inst, it in t2.tl2_items(sc):
+        if not it[3]:
+            continue
+        for boxed in (0, 1):
+            if inst["kind"] == "union" and not boxed:
+                continue
+            for k in range(per):
+                g.set_mode(MODES[k % len(MODES)])
+                try:
+                    b = g.top(inst["idx"], not boxed)
+                except (TooDeep, RecursionError):
+                    break
+                lines.append(t2.x2_line(sc, inst, boxed, b))
+    return lines
+
+
+def zero2(g, ty, depth=0):
+    """the empty Gen2 value of a type"""
+    i = g.I[ty]
+    k = i["kind"]
+    if k == "prim":
+        return ("p", b"" if i["prim"] == "string" else (False if i["prim"] in ("bool", "bit") else 0))
+    if k == "struct":
+        if depth > 40:
+            raise TooDeep()
+        fs = []
+        for f in i.get("fields") or []:
+            fs.append(None if (f.get("tl2bit") is not None or f["name"].startswith("_")) else zero2(g, f["ty"], depth + 1))
+        return ("s", fs)
+    if k == "union":
+        return ("u", 0, zero2(g, i["variants"][0], depth + 1))
+    if k == "array" and i.get("isTuple") and not i.get("dynamicSize"):
+        return ("a", [zero2(g, i["elem"]["ty"], depth + 1) for _ in range(i.get("count", 0))])
+    return ("a", [])
+
+
+def sparsify(g, rng, ty, v, depth=0):
+    """cut a Gen2 value: in constructors with ≥ 8 fields everything from a random position (1..7) on becomes empty / absent"""
+    i = g.I[ty]
+    k = i["kind"]
+    if k == "struct":
+        fields = i.get("fields") or []
+        if (i.get("isAlias") or i.get("isUnwrap")) and not i.get("isUnionElement"):
+            return ("s", [sparsify(g, rng, fields[0]["ty"], v[1][0], depth + 1)])
+        cut = rng.range(1, 7) if len(fields) >= 8 else len(fields)
+        fs = []
+        for j, (f, x) in enumerate(zip(fields, v[1])):
+            if j >= cut:
+                fs.append(None if (f.get("tl2bit") is not None or f["name"].startswith("_")) else zero2(g, f["ty"]))
+            elif x is None or x is True:
+                fs.append(x)
+            else:
+                fs.append(sparsify(g, rng, f["ty"], x, depth + 1))
+        return ("s", fs)
+    if k == "union":
+        return ("u", v[1], sparsify(g, rng, i["variants"][v[1]], v[2], depth + 1))
+    if k in ("array", "dict"):
+        return ("a", [sparsify(g, rng, i["elem"]["ty"], x, depth + 1) for x in v[1]])
+    return v
+
+
+def r2_gen_lines(sc, rng, per, big=False):
+    """`codec.r2` on type-directed TL2 encodings (minimal and admissibly non-minimal), dense and cut values, and 2 malformed variants each"""
+    from checks import codec_tl2 as t2
+    g2 = t2.Gen2(sc, rng.fork(), big=big, negzero=True)
+    lines = []
+    for inst, it in t2.tl2_items(sc):
+        if t2.is_enum_element(sc, inst):
+            continue
+        for k in range(per):
+            try:
+                v = g2.value(inst["idx"])
+                if k % 2:
+                    v = sparsify(g2, rng, inst["idx"], v)
+                b = g2.top(inst, v, t2.Style(rng.fork(), p=rng.choice([3, 6])) if rng.chance(1, 2) else None)
+            except (TooDeep, RecursionError):
+                break
+            lines.append(t2.r2_line(sc, inst, b))
+            for _ in range(2):
+                lines.append(t2.r2_line(sc, inst, t2.mutate2(rng, b)))
     return lines
 
 
